@@ -69,4 +69,62 @@ theorem C18_agents_any_reject_unchanged (st : Store) (op : SOp) :
     | ok r => simp [hs, Except.toOption] at h
   | _ => intro h; simp at h
 
+theorem mapM_option_eq_none {α β : Type} (f : α → Option β) (l : List α) :
+    l.mapM f = none ↔ ∃ x ∈ l, f x = none := by
+  induction l with
+  | nil => simp
+  | cons a l ih =>
+    rw [List.mapM_cons]
+    cases ha : f a with
+    | none => simp [ha]
+    | some b =>
+      cases hl : l.mapM f with
+      | none =>
+        have := ih.mp hl
+        obtain ⟨x, hx, hfx⟩ := this
+        simp only [Option.bind_eq_bind, Option.bind_some, Option.bind_none]
+        simp only [List.mem_cons]
+        exact ⟨fun _ => ⟨x, Or.inr hx, hfx⟩, fun _ => trivial⟩
+      | some bs =>
+        have hno : ¬ ∃ x ∈ l, f x = none := fun h => by rw [ih.mpr h] at hl; simp at hl
+        simp only [Option.bind_eq_bind, Option.bind_some]
+        constructor
+        · intro h; simp at h
+        · rintro ⟨x, hx, hfx⟩
+          rcases List.mem_cons.mp hx with rfl | hx
+          · rw [ha] at hfx; simp at hfx
+          · exact absurd ⟨x, hx, hfx⟩ hno
+
+/-- **Exactly when the raising calls raise**: `remove` raises `KeyError` iff the agent is not a member; `sort` and `groupby`
+    raise `AttributeError` iff some member lacks the key attribute (whatever `ascending` / `inplace` / `result_type`); `pop`
+    raises `KeyError` iff the set is empty — and in each of these cases the store a history continues from is the old one. -/
+theorem C18_agents_reject_exactly_when (st : Store) (s : Nat) :
+    (∀ a, (remove st s a = .error .key ↔ a ∉ st.get s) ∧ (a ∉ st.get s → applyOp st (.remove s a) = st)) ∧
+    (∀ key asc inplace, (sort st s key asc inplace = .error .attr ↔ ∃ i ∈ st.get s, key.eval (st.agent i) = none) ∧
+      ((∃ i ∈ st.get s, key.eval (st.agent i) = none) → applyOp st (.sort s key asc inplace) = st)) ∧
+    (∀ key asSets, (group st s key asSets = .error .attr ↔ ∃ i ∈ st.get s, key.eval (st.agent i) = none) ∧
+      ((∃ i ∈ st.get s, key.eval (st.agent i) = none) → applyOp st (.group s key asSets) = st)) ∧
+    (((pop st s).toOption = none ↔ st.get s = []) ∧ (st.get s = [] → applyOp st (.pop s) = st)) := by
+  refine ⟨fun a => ⟨?_, fun h => (C18_agents_remove_absent_reject_unchanged st s a h).2⟩, fun key asc inplace => ⟨?_, fun h => ?_⟩,
+    fun key asSets => ⟨?_, fun h => ?_⟩, ?_, fun h => (C18_agents_pop_empty_reject_unchanged st s h).2⟩
+  · by_cases h : a ∈ st.get s <;> simp [remove, h]
+  · rw [← mapM_option_eq_none]
+    show sort st s key asc inplace = .error .attr ↔ keysOf st key (st.get s) = none
+    cases hk : keysOf st key (st.get s) <;> simp [sort, hk]
+  · have : keysOf st key (st.get s) = none := (mapM_option_eq_none _ _).mpr h
+    exact (C18_agents_sort_missing_key_reject_unchanged st s key asc inplace this).2
+  · rw [← mapM_option_eq_none]
+    show group st s key asSets = .error .attr ↔ keysOf st key (st.get s) = none
+    cases hk : keysOf st key (st.get s) <;> simp [group, hk]
+  · have : keysOf st key (st.get s) = none := (mapM_option_eq_none _ _).mpr h
+    exact (C18_agents_groupby_missing_key_reject_unchanged st s key asSets this).2
+  · cases hl : st.get s with
+    | nil => simp [pop, hl, popL, Except.toOption]
+    | cons a rest => simp [pop, hl, popL, Except.toOption]
+
+/-- non-vacuity: agent 1 lacks attribute 1 -/
+example : sort { pop := [⟨0, 0, [(1, 5)]⟩, ⟨1, 0, []⟩], sets := [[0, 1]], rng := ⟨[]⟩ } 0 (.attr 1) true true = .error .attr ∧
+    (sort { pop := [⟨0, 0, [(1, 5)]⟩, ⟨1, 0, []⟩], sets := [[0]], rng := ⟨[]⟩ } 0 (.attr 1) true true).toOption.isSome = true :=
+  ⟨by rfl, by rfl⟩
+
 end Mesa.ASet
